@@ -14,7 +14,7 @@ EXPECTED_PROBES = ["ordered-pull-with-2+-candidates", "re-add-existing", "re-add
 
 
 def worker(seed, widx, nworkers, plan, scratch):
-    return qscommon.qs_worker(PROP, seed, widx, nworkers, plan, scratch)
+    return qscommon.qs_worker(PROP, seed, widx, nworkers, plan, scratch, allow_restart=True)
 
 
 def evidence(stats, samples, plan, tier, seed, wall, nviol, known_hits, nworkers):
